@@ -127,6 +127,65 @@ example :
     shouldKillJobForParallel (updateTaskRefStatus s "ns/job" anyJob (tasks0 s anyJob)).2 = true := by
   decide
 
+/-- **`decided_then_kill_covers_unrecorded`** (repair of F23).  Pass level, on the cached Job: when
+the creation step does not create — the refreshed summary of the recorded tasks is already
+complete, or `canCreateTask` is false — the task list the handlers work on is
+`adoptUnrecordedTasks` of the found tasks, so it contains every UNRECORDED task of the Job that
+the pod cache holds (a pod labelled with and controlled by the Job that the status does not name:
+created while the status write that records it failed).  Hence, in a pass that returns without
+error and in which the Job refreshed from that list is decided against continuing (or carries the
+admission error), every such pod whose task is unfinished and has no deletion timestamp gets a
+graceful delete call in that very pass.  Before the repair a complete summary returned the list as
+it was: the unrecorded task was never stopped and the Job was reported finished while it ran. -/
+theorem decided_then_kill_covers_unrecorded (s : Sys) (jo : JobObj) (rjOut : Job)
+    (hok : (syncJobTasks s jo jo.job).2 = some rjOut)
+    (hstop : canCreateTask jo.job = false ∨ (refreshedSummary s jo.job (tasks0 s jo.job)).complete = true) :
+    syncCreateTasks s jo jo.job (tasks0 s jo.job) =
+      (s, some (jo.job, adoptUnrecordedTasks s jo (tasks0 s jo.job))) ∧
+    (shouldKillJobForParallel
+        (updateTaskRefStatus s (jobKey jo) jo.job (adoptUnrecordedTasks s jo (tasks0 s jo.job))).2 = true ∨
+      jo.job.admissionError = true →
+      ∀ p ∈ s.podCache, p.jobLabel = some jo.uid → p.ownerUid = some jo.uid →
+        (∀ r ∈ jo.job.status.tasks, r.name ≠ p.pod.name) →
+        ∀ t, podTask p = some t → isTaskFinished t = false → t.deletionTimestamp = none →
+          ∃ c ∈ newCalls s (syncJobTasks s jo jo.job).1,
+            c.verb = "delete" ∧ c.res = "pods" ∧ c.force = false ∧ c.name = p.pod.name) := by
+  have hcr : syncCreateTasks s jo jo.job (tasks0 s jo.job) =
+      (s, some (jo.job, adoptUnrecordedTasks s jo (tasks0 s jo.job))) := by
+    obtain ⟨_, _, hoff, hdone, _⟩ := syncCreateTasks_ext s jo jo.job (tasks0 s jo.job)
+    by_cases hcan : canCreateTask jo.job = true
+    · rcases hstop with h | h
+      · rw [hcan] at h; cases h
+      · exact hdone hcan h
+    · exact hoff (by simpa using hcan)
+  refine ⟨hcr, ?_⟩
+  intro hdec p hp hl ho hu t hpt hf hd
+  obtain ⟨s1, rj1, tasks1, hc, hkill⟩ := decided_then_kill_pass s jo jo.job rjOut hok
+  rw [hcr] at hc
+  simp only [Prod.mk.injEq, Option.some.injEq] at hc
+  obtain ⟨rfl, rfl, rfl⟩ := hc
+  have hmem : t ∈ adoptUnrecordedTasks s jo (tasks0 s jo.job) := by
+    refine (mem_adoptUnrecordedTasks s jo _ t).mpr (Or.inr ⟨p, hp, hpt, hl, ho, ?_, hu⟩)
+    intro t0 ht0 hn
+    obtain ⟨r, hr, hrn⟩ := tasksForRefs_name ht0
+    exact hu r hr (hrn ▸ hn)
+  obtain ⟨c, hc, hv, hr, hfo, hn⟩ := hkill hdec t hmem hf hd
+  exact ⟨c, hc, hv, hr, hfo, hn.trans (podTask_name hpt)⟩
+
+/-- `decided_then_kill_covers_unrecorded` (the F23 history): AnySuccessful over `a`, `b`; `job-b-0`
+is recorded and has SUCCEEDED (the summary of the recorded tasks is complete); the status does not
+list `job-a-0` although the pod exists and runs (its recording failed): the pass deletes it. -/
+example :
+    let pa := mkPod "job-a-0" "a" .running none
+    let pb := mkPod "job-b-0" "b" .succeeded (some (sec 50))
+    let j : Job := { anyJob with status := { anyJob.status with tasks := anyJob.status.tasks.filter (·.name = "job-b-0") } }
+    let jo : JobObj := ⟨"job", "u", j, true, 1⟩
+    let s : Sys := { clock := sec 60, d := { hash := "d" }, pods := [pa, pb], podCache := [pa, pb] }
+    (refreshedSummary s j (tasks0 s j)).complete = true ∧ canCreateTask j = true ∧
+    (syncJobTasks s jo j).2.isSome = true ∧
+    (newCalls s (syncJobTasks s jo j).1).map brief = [("delete", "pods", "job-a-0", "ok", false)] := by
+  decide
+
 /-- for a parallel Job the refreshed Job's parallel status is the one computed from the refreshed
 refs -/
 theorem refreshed_status (s : Sys) (key : String) (rj : Job) (tasks : List Task) (t : Template) (spec : ParSpec)
